@@ -9,6 +9,7 @@ import (
 	"fmt"
 	"os"
 	"sort"
+	"strings"
 
 	"github.com/grindlemire/go-lucene/pkg/driver"
 	"github.com/grindlemire/go-lucene/pkg/lucene/expr"
@@ -79,6 +80,116 @@ func opsOfTree(t Tree, set map[string]bool) {
 	}
 }
 
+// customiseOneDriver registers extra functions on ONE driver instance, as a user of the package may: it must not
+// leak into other drivers or into the package-level renderers (C15: ToPostgres keeps failing on ~ and ^).
+func customiseOneDriver() {
+	d := driver.NewPostgresDriver()
+	d.RenderFNs[expr.Fuzzy] = func(l, r string) (string, error) { return "FUZZY(" + l + ")", nil }
+	d.RenderFNs[expr.Boost] = func(l, r string) (string, error) { return "BOOST(" + l + ")", nil }
+	d.RenderFNs[expr.Equals] = func(l, r string) (string, error) { return l + " == " + r, nil }
+}
+
+func hasBad(t Tree) bool {
+	if t["op"] == "BAD" || t["ty"] == "other" {
+		return true
+	}
+	// values on which serialize() itself fails or quotes (empty / double-quoted column names, single quotes) are
+	// C02's subject, not the fold discipline
+	if v, ok := t["v"].(string); ok {
+		if strings.ContainsAny(v, "'\"") || (t["ty"] == "col" && v == "") {
+			return true
+		}
+	}
+	for _, k := range []string{"l", "r", "lo", "hi"} {
+		if c, ok := t[k].(Tree); ok && hasBad(c) {
+			return true
+		}
+	}
+	if items, ok := t["items"].([]any); ok {
+		for _, it := range items {
+			if c, ok := it.(Tree); ok && hasBad(c) {
+				return true
+			}
+		}
+	}
+	return false
+}
+
+// foldVariants renders e with every operator traced, then each operator of the tree removed / overridden.
+func foldVariants(e *expr.Expression, tree Tree) []any {
+	full := map[string]string{}
+	for _, op := range allOps {
+		full[opNames[op]] = opNames[op]
+	}
+	set := map[string]bool{}
+	opsOfTree(tree, set)
+	ops := []string{}
+	for op := range set {
+		ops = append(ops, op)
+	}
+	sort.Strings(ops)
+	tag := func(m map[string]any, mode, op string) map[string]any { m["mode"], m["mop"] = mode, op; return m }
+	variants := []any{tag(traceRun(e, full), "all", "")}
+	for _, op := range ops {
+		removed, over := map[string]string{}, map[string]string{}
+		for k, v := range full {
+			if k != op {
+				removed[k] = v
+			}
+			over[k] = v
+		}
+		over[op] = "X" + op
+		variants = append(variants, tag(traceRun(e, removed), "removed", op), tag(traceRun(e, over), "over", op))
+	}
+	return variants
+}
+
+// cmdFoldDocs: trees that Parse cannot build - every JSON document of the input that decodes and validates.
+func cmdFoldDocs(args []string) {
+	fs := newFlags("fold-docs", args)
+	in := fs.String("in", "", "docs ndjson")
+	out := fs.String("out", "", "output ndjson")
+	fs.Parse(args)
+	customiseOneDriver()
+	r, closeFn := newRecorder(*out, false)
+	defer closeFn()
+	f, err := os.Open(*in)
+	if err != nil {
+		fatal(err)
+	}
+	defer f.Close()
+	sc := bufio.NewScanner(f)
+	sc.Buffer(make([]byte, 1<<20), 1<<28)
+	n, runs := 0, 0
+	for sc.Scan() {
+		var c struct {
+			ID  int    `json:"id"`
+			Doc string `json:"doc"`
+		}
+		if json.Unmarshal(sc.Bytes(), &c) != nil {
+			continue
+		}
+		var e expr.Expression
+		if outcomeOf(func() error { return json.Unmarshal([]byte(c.Doc), &e) }) != "ok" {
+			continue
+		}
+		if outcomeOf(func() error { return expr.Validate(&e) }) != "ok" {
+			continue
+		}
+		tree := dumpTree(&e)
+		if hasBad(tree) {
+			continue
+		}
+		s1, sp1, _, o1, o2 := renderAll(&e)
+		obs := map[string]any{"sql": obsCall{Out: o1, Empty: s1 == ""}, "sqlp": obsCall{Out: o2, Empty: sp1 == ""}}
+		variants := foldVariants(&e, tree)
+		n++
+		runs += len(variants)
+		r.write(map[string]any{"id": c.ID, "q": c.Doc, "tree": tree, "runs": variants, "obs": obs})
+	}
+	summary(map[string]any{"trees": n, "renders": runs})
+}
+
 // cmdFoldGroups: for the minimal print of every generated tree: Parse, then Render with (a) every operator traced,
 // (b) each operator of the tree removed in turn, (c) each operator of the tree overridden in turn; plus what the
 // package-level renderers do with the same query (the fuzzy/boost clause).
@@ -87,6 +198,7 @@ func cmdFoldGroups(args []string) {
 	in := fs.String("in", "", "groups ndjson")
 	out := fs.String("out", "", "output ndjson")
 	fs.Parse(args)
+	customiseOneDriver()
 	r, closeFn := newRecorder(*out, false)
 	defer closeFn()
 	f, err := os.Open(*in)
@@ -152,6 +264,7 @@ func cmdFoldText(args []string) {
 	q := fs.String("q", "", "query text")
 	out := fs.String("out", "", "output ndjson")
 	fs.Parse(args)
+	customiseOneDriver()
 	r, closeFn := newRecorder(*out, false)
 	defer closeFn()
 	pr := r.record(1, *q, "")
